@@ -240,6 +240,7 @@ type batch struct {
 	name  string // package name, e.g. r0b003
 	progs []*Outcome
 	gogen bool // compiled through rewriter.GoGen (the go:generate entry point) instead of rewriter.Compile
+	gogenOpt bool // ... with the options WithFileSuffix("gen"), WithBuildTag("gen")
 }
 
 func (b *batch) hasNative() bool {
@@ -410,7 +411,11 @@ func (p *Pipeline) compileBatches(bs []*batch) (panics map[string]string, err er
 			for _, b := range g {
 				job := filepath.Join(p.SC.Dir, "src", b.name) + ":" + filepath.Join(p.SC.Dir, "out", b.name)
 				if b.gogen {
-					job = "gogen=" + job + ":" + filepath.Join(p.SC.Dir, "gg", b.name)
+					work := filepath.Join(p.SC.Dir, "gg", b.name)
+					if b.gogenOpt {
+						work += "-opt" // through GoGen's options: file suffix and build tag "gen"
+					}
+					job = "gogen=" + job + ":" + work
 				}
 				if p.Opts.Stage1 {
 					job += ":" + filepath.Join(p.SC.Dir, "s1", b.name)
@@ -638,6 +643,10 @@ func (p *Pipeline) Run(progs []*Program) ([]*Outcome, error) {
 		default:
 			b.gogen = i%2 == 1
 		}
+		b.gogenOpt = b.gogen && i%4 == 3
+		if b.gogenOpt {
+			p.Stats["packages_compiled_through_GoGen_with_suffix_and_tag_options"]++
+		}
 		if b.gogen {
 			p.Stats["packages_compiled_through_GoGen"]++
 			p.Stats["programs_compiled_through_GoGen"] += len(b.progs)
@@ -652,7 +661,7 @@ func (p *Pipeline) Run(progs []*Program) ([]*Outcome, error) {
 		var singles []*batch
 		for _, b := range bad {
 			for _, o := range b.progs {
-				singles = append(singles, &batch{name: fmt.Sprintf("r%ds%04d", p.round, o.Prog.ID), progs: []*Outcome{o}, gogen: b.gogen})
+				singles = append(singles, &batch{name: fmt.Sprintf("r%ds%04d", p.round, o.Prog.ID), progs: []*Outcome{o}, gogen: b.gogen, gogenOpt: b.gogenOpt})
 			}
 		}
 		p.Stats["programs_retried_alone"] += len(singles)
